@@ -1,0 +1,20 @@
+//go:build verif
+// +build verif
+
+package isaacdatabase
+
+// VerifCleanBallots runs the periodic ballot cleanup once (it is otherwise
+// only reachable through the 33-minute ticker of startClean).
+func (db *TempPool) VerifCleanBallots() (int, error) {
+	return db.cleanBallots()
+}
+
+// VerifCleanProposals runs the periodic proposal cleanup once.
+func (db *TempPool) VerifCleanProposals() (int, error) {
+	return db.cleanProposals()
+}
+
+// VerifCleanDeeps reports the configured cleanup depths (proposals, ballots).
+func (db *TempPool) VerifCleanDeeps() (int, int) {
+	return db.cleanRemovedProposalDeep, db.cleanRemovedBallotDeep
+}
